@@ -133,3 +133,7 @@ def class_attr(key):
 
 def strip_def(x):
     return True
+
+
+def only_chars(s, chars):
+    return all(c in chars for c in s)
